@@ -850,7 +850,7 @@ func c08HsMsg(typ byte, mseq int, body []byte, declLen, off, flen int) []byte {
 	return append(h, body...)
 }
 
-func c08MalformedPlain(rng *vRand, mseq int, v13 bool) c08Plain {
+func c08MalformedPlain(rng *vRand, mseq int, v13 bool, idx int) c08Plain {
 	r := rng.bytes(1 + rng.intn(40))
 	list := []c08Plain{
 		{"alert-1byte", protocol.ContentTypeAlert, []byte{2}},
@@ -888,6 +888,9 @@ func c08MalformedPlain(rng *vRand, mseq int, v13 bool) c08Plain {
 		{"cid-type", protocol.ContentTypeConnectionID, r},
 	}
 	_ = v13
+	if idx >= 0 {
+		return list[idx%len(list)]
+	}
 
 	return list[rng.intn(len(list))]
 }
@@ -1240,7 +1243,11 @@ func (s *c08Sess) batch(c c08Case, rng *vRand, target string, pending []byte) {
 
 				continue
 			}
-			pl := c08MalformedPlain(rng, dtlsstate.HandshakeRecvSequence(tgt.state), ctx.v13)
+			idx := -1
+			if c.Item >= 0 {
+				idx = c.Item + i // the three prot cases of a variant walk through the whole list between them
+			}
+			pl := c08MalformedPlain(rng, dtlsstate.HandshakeRecvSequence(tgt.state), ctx.v13, idx)
 			if c08Avoided("prot:" + pl.name) {
 				continue
 			}
@@ -1410,9 +1417,12 @@ func c08Cases(seed uint64, thorough bool) []c08Case {
 			add(v.Name, -1, "raw", 12)
 			add(v.Name, -1, "mut", 14)
 			add(v.Name, -1, "mut", 14)
-			add(v.Name, -1, "prot", 16)
-			add(v.Name, -1, "prot", 16)
-			add(v.Name, -1, "prot", 16)
+			for k := 0; k < 3; k++ {
+				add(v.Name, -1, "prot", 16)
+				if r == 0 {
+					cases[len(cases)-1].Item = 11 * k
+				}
+			}
 		}
 	}
 
